@@ -190,6 +190,13 @@ func dbFacts() {
 	add("secondaryGetChecksIndexName", "Bool", boolLean(stays), "server/secondary_indexes.go: doSecondaryGet",
 		fmt.Sprintf("guard `strings.HasPrefix(itKey, indexPrefix)` present: %v", stays))
 
+	// running off the key space means "not found": FLOOR falls back to SeekLT when SeekGE finds nothing,
+	// and the function ends with `return "", "", nil`
+	endSafe := strings.Contains(body, "!it.SeekGE(searchKey) && req.ComparisonType == proto.KeyComparisonType_FLOOR") &&
+		strings.Contains(body, "it.SeekLT(searchKey)") && strings.HasSuffix(strings.TrimSuffix(strings.TrimSpace(body), "}"), "return \"\", \"\", nil ")
+	add("secondaryGetEndOfKeySpaceSafe", "Bool", boolLean(endSafe), "server/secondary_indexes.go: doSecondaryGet",
+		fmt.Sprintf("SeekGE fallback for FLOOR and final `return \"\", \"\", nil`: %v", endSafe))
+
 	d := parse("server/kv/db.go")
 	v, ok := constEval(d, topVarValue(d, "DeleteRangeThreshold"), 0)
 	natFact("deleteRangeThreshold", v, ok, "server/kv/db.go: DeleteRangeThreshold", "")
@@ -219,9 +226,60 @@ func dbFacts() {
 		"one batch.Commit(); applyWriteRequest, commit offset, last version id and notifications are added to the same batch before it, the version id after the operations were applied")
 }
 
+// channelFacts: the shape of overrideChannel.WriteLast.
+func channelFacts() {
+	f := parse("common/channel/override_channel.go")
+	fn := funcDecl(f, "overrideChannel", "WriteLast")
+	ok := false
+	seen := ""
+	if fn != nil {
+		// for { select { case o.ch <- value: return; default: select { case <-o.ch: continue; default: continue } } }
+		var outer *ast.SelectStmt
+		ast.Inspect(fn.Body, func(n ast.Node) bool {
+			if s, isSel := n.(*ast.SelectStmt); isSel && outer == nil {
+				outer = s
+			}
+			return outer == nil
+		})
+		if outer != nil {
+			for _, c := range outer.Body.List {
+				cc := c.(*ast.CommClause)
+				if cc.Comm != nil {
+					continue
+				}
+				// the outer default: must consist of exactly the inner select
+				if len(cc.Body) != 1 {
+					continue
+				}
+				inner, isSel := cc.Body[0].(*ast.SelectStmt)
+				if !isSel {
+					continue
+				}
+				good := true
+				for _, ic := range inner.Body.List {
+					icc := ic.(*ast.CommClause)
+					b := squash(src(&ast.BlockStmt{List: icc.Body}))
+					seen += fmt.Sprintf("[comm=%s body=%s] ", squash(src(icc.Comm)), b)
+					if len(icc.Body) != 1 {
+						good = false
+						continue
+					}
+					br, isBr := icc.Body[0].(*ast.BranchStmt)
+					if !isBr || br.Tok != token.CONTINUE {
+						good = false
+					}
+				}
+				ok = good
+			}
+		}
+	}
+	add("overrideChannelInnerDefaultContinues", "Bool", boolLean(ok), "common/channel/override_channel.go: (*overrideChannel).WriteLast", seen)
+}
+
 // moreFacts collects the facts of the other properties (added per property).
 func moreFacts() {
 	walFacts()
 	codecFacts()
 	dbFacts()
+	channelFacts()
 }
